@@ -1,6 +1,8 @@
 mod c01;
 mod c02;
 mod c04;
+mod c20;
+mod c20x;
 mod fw;
 mod gen_dlt;
 mod rng;
@@ -15,6 +17,7 @@ macro_rules! registry {
             "C01" => $mac!(c01::C01),
             "C02" => $mac!(c02::C02),
             "C04" => $mac!(c04::C04),
+            "C20" => $mac!(c20::C20),
             other => {
                 eprintln!("HARNESS-ERROR unknown check id {}", other);
                 std::process::exit(2);
@@ -23,7 +26,7 @@ macro_rules! registry {
     };
 }
 
-pub const ALL_IDS: &[&str] = &["C01", "C02", "C04"];
+pub const ALL_IDS: &[&str] = &["C01", "C02", "C04", "C20"];
 
 fn arg_val(args: &[String], name: &str) -> Option<String> {
     args.iter()
